@@ -636,7 +636,11 @@ func (ps *PathState) intrinsic(fr *frame, fn *ssa.Function, args []value) (value
 		}
 		return Sym{S: SBool, T: "(and " + a.T + " " + b.T + ")"}, true
 	case "verifLog":
-		ps.Record(LogEvent{Tag: args[0].(string), Val: args[1]})
+		lv := args[1]
+		if i, ok := lv.(iface); ok {
+			lv = i.v
+		}
+		ps.Record(LogEvent{Tag: args[0].(string), Val: lv})
 		return nil, true
 	case "verifIsIdent":
 		return identPredicate(args[0], args[1].(bool), int(asInt64(args[2]))), true
